@@ -8,7 +8,11 @@ THEOREMS = ["Mesa.Signals." + t for t in (
     "C16_observe_pointwise", "C16_unobserve_pointwise", "C16_unobserve_removes", "C16_clear_removes",
     "C16_registry_is_subscription_history", "C16_delivery_exactly_once_in_order", "C16_dead_never_called",
     "C16_unsubscribed_never_called", "C16_unknown_rejected", "C16_assign_payload", "C16_signals_track_list",
-    "C16_replica_all_histories", "C16_listener_receives_all", "C16_pi_independent",
+    "C16_replica_all_histories", "C16_listener_receives_all", "C16_listener_replica_all_histories", "C16_pi_independent",
+    "C16_reentrant_passive_is_run", "C16_reentrant_round_registry", "C16_reentrant_called_are_subscribed",
+    "C16_reentrant_untouched_called_once_per_subscription", "C16_reentrant_registry_is_call_history",
+    "C16_slicex_set_rejected_iff", "C16_slicex_positions_exist", "C16_slicex_extended_set_frame",
+    "C16_extend_signals", "C16_iadd_signals", "C16_clear_signals",
     "C18_signals_reject_unchanged", "C18_signals_observe_reject_unchanged", "C18_signals_observe_rejects_exactly",
     "C18_signals_rejected_calls_can_be_deleted")]
 COUNTS = {"quick": 1500, "thorough": 150000}
@@ -18,13 +22,15 @@ TRUSTED = [
     "left to CPython and covered by the proved independence from that order (1/4)",
     "collections.abc.MutableSequence mixin methods (pop, remove, extend, +=, reverse, clear) are modelled as the "
     "compositions of primitives CPython 3.12 uses",
-    "handlers are passive recorders; values are ints, lists of ints; slices have step 1 and explicit bounds",
+    "handlers record and may call observe / unobserve / clear_all_subscriptions (accepted calls only) while they are being "
+    "notified; handlers that assign or raise while notified are not modelled; values are ints, lists of ints; slices: "
+    "CPython's slice.indices semantics (open bounds, any step) is modelled and compared on every run",
 ]
-ASSUMPTIONS = ["handlers do not subscribe / unsubscribe / assign while being notified (re-entrancy is outside the property's quantifier)"]
-RULE = ("random classes with 2-4 Observables / ObservableLists split over 1-3 classes of an inheritance chain, random orders of "
-        "the signal-type sets, 2-6 handlers (functions and bound methods, some dropped), 6-28 ops from observe/unobserve (name "
+ASSUMPTIONS = ["handlers do not assign and do not raise while being notified (re-entrant registry calls are covered)"]
+RULE = ("random classes with 2-4 Observables / ObservableLists split over 1-3 classes of an inheritance chain, in 3/10 of the chains a base class defines one of the names again (overridden: the most derived definition is in effect), random orders of "
+        "the signal-type sets, 2-6 handlers (functions and bound methods, some dropped; in 1/4 of the scenarios 1-2 handlers make 1-2 registry calls - unobserve of themselves or of others, clear_all, observe of a passive handler - whenever they are called), 6-28 ops from observe/unobserve (name "
         "or All x type or All, incl. invalid ones), clear_all, drop, assignment and all list mutations with in-range, negative "
-        "and out-of-range indices; non-trivial = at least 3 signals delivered and at least one All subscription")
+        "and out-of-range indices, slices with open / negative / out-of-range bounds and steps -3..3 (0 and wrong item counts are rejected); non-trivial = at least 3 signals delivered and at least one All subscription")
 
 
 def generate(rng, tier, count):
@@ -58,8 +64,8 @@ def _hashseed_main():
         sc = S.gen_sig_scenario(rng)
         if "natural" not in sc.lines[0].split():
             sc.lines[0] = " ".join(
-                [":".join(t.split(":")[:2] + [",".join(S.KIND_TYPES[t.split(":")[1]])]) if ":" in t else t
-                 for t in sc.lines[0].split()] + ["natural"])
+                [":".join(t.split(":")[:2] + [",".join(S.KIND_TYPES[t.split(":")[1]])]) if ":" in t and not t.startswith(("prog:", "ovr:"))
+                 else t for t in sc.lines[0].split()] + ["natural"])
         scs.append(sc)
     obs = [run_impl(sc) for sc in scs]
     mobs = core.model_obs(DRIVER, scs)
